@@ -99,7 +99,7 @@ pub fn generate(g: &mut Gen, thorough: bool) {
         }
     }
     // acceptance: all 4096 words, with every valid suffix and a set of invalid ones
-    let bad_suffixes = ["_foo", "_de", "_degx", "deg", "_DEG", "_", "____", "_ra d"];
+    let bad_suffixes = ["_foo", "_de", "_degx", "deg", "_DEG", "_", "____", "_ra d", "-deg", "xdeg", "/any", ".rad", "__deg", "_deg_", "\u{e9}deg", "_d\u{e9}g"];
     for w in all_words() {
         let sfx: Vec<&str> = if thorough {
             SUFFIXES.iter().chain(bad_suffixes.iter()).cloned().collect()
